@@ -351,4 +351,123 @@ theorem mergeSpec_terms_merge_of_merges {α} (groups : List (List (Segment α)))
     have := key_of_postingsOf_ne_nil _ k hgne
     exact (hm1 k).2 ⟨_, List.mem_map.2 ⟨mergeModel g, List.mem_map.2 ⟨g, hg, rfl⟩, rfl⟩, this⟩
 
+/-! ### sources without a live document are dropped (`IndexMerger::open`) -/
+
+theorem livePostings_nil_of_no_live (al : List Bool) (ps : List Posting) (h : al.count true = 0) :
+    livePostings al ps = [] := by
+  unfold livePostings
+  rw [List.filterMap_eq_nil_iff]
+  intro p _
+  have : isAlive al p.doc = false := by
+    cases hi : isAlive al p.doc with
+    | false => rfl
+    | true =>
+      have := rank_lt_count al p.doc hi
+      omega
+  simp [this]
+
+theorem liveDocs_nil_of_no_live {α} (docs : List α) (al : List Bool) (h : al.count true = 0) :
+    liveDocs docs al = [] := by
+  induction docs generalizing al with
+  | nil => cases al <;> rfl
+  | cons d ds ih =>
+    cases al with
+    | nil => rfl
+    | cons a as =>
+      cases a
+      · simp only [liveDocs, Bool.false_eq_true, if_false]
+        exact ih as (by simpa using h)
+      · simp at h
+
+theorem cfFrom_filter_hasLive {α} (k : Key) (b : Nat) (X : List (Segment α)) :
+    cfFrom k b (X.filter hasLive) = cfFrom k b X := by
+  induction X generalizing b with
+  | nil => rfl
+  | cons s rest ih =>
+    by_cases h : 0 < s.alive.count true
+    · simp only [List.filter_cons, hasLive, h, decide_true, if_true, cfFrom, ih]
+    · have h0 : s.alive.count true = 0 := by omega
+      simp only [List.filter_cons, hasLive, h, decide_false, Bool.false_eq_true, if_false, cfFrom,
+        livePostings_nil_of_no_live _ _ h0, shift, List.map_nil, List.nil_append, h0, Nat.add_zero]
+      exact ih b
+
+theorem cfFrom_ne_nil_source {α} (k : Key) (b : Nat) (X : List (Segment α)) (h : cfFrom k b X ≠ []) :
+    ∃ s ∈ X, livePostings s.alive (postingsOf s.terms k) ≠ [] := by
+  induction X generalizing b with
+  | nil => exact absurd rfl h
+  | cons s rest ih =>
+    simp only [cfFrom] at h
+    by_cases hs : livePostings s.alive (postingsOf s.terms k) = []
+    · rw [hs] at h
+      simp only [shift, List.map_nil, List.nil_append] at h
+      obtain ⟨s', hs', hne⟩ := ih _ h
+      exact ⟨s', List.mem_cons_of_mem _ hs', hne⟩
+    · exact ⟨s, by simp, hs⟩
+
+/-- dropping the sources that hold no live document changes nothing of the logical content -/
+theorem mergeSpec_filter_hasLive {α} (X : List (Segment α))
+    (hlen : ∀ s ∈ X, s.docs.length = s.alive.length)
+    (hpost : ∀ s ∈ X, ∀ t ∈ s.terms, postingsOk s.alive.length t.2 = true) :
+    mergeSpec (X.filter hasLive) = mergeSpec X := by
+  have hlenF : ∀ s ∈ X.filter hasLive, s.docs.length = s.alive.length :=
+    fun s hs => hlen s (List.mem_filter.1 hs).1
+  have hpostF : ∀ s ∈ X.filter hasLive, ∀ t ∈ s.terms, postingsOk s.alive.length t.2 = true :=
+    fun s hs => hpost s (List.mem_filter.1 hs).1
+  have hsp : ∀ k, specPostings k (X.filter hasLive) = specPostings k X := by
+    intro k
+    rw [specPostings_cf _ _ hpostF, specPostings_cf _ _ hpost, cfFrom_filter_hasLive]
+  have hdocs : (mergeSpec (X.filter hasLive)).docs = (mergeSpec X).docs := by
+    rw [mergeSpec_docs _ hlenF, mergeSpec_docs _ hlen]
+    clear hlenF hpostF hsp hlen hpost
+    induction X with
+    | nil => rfl
+    | cons s rest ih =>
+      by_cases h : 0 < s.alive.count true
+      · simp only [List.filter_cons, hasLive, h, decide_true, if_true, List.map_cons, List.flatten_cons, ih]
+      · have h0 : s.alive.count true = 0 := by omega
+        simp only [List.filter_cons, hasLive, h, decide_false, Bool.false_eq_true, if_false, List.map_cons,
+          List.flatten_cons, liveDocs_nil_of_no_live _ _ h0, List.nil_append]
+        exact ih
+  have hterms : (mergeSpec (X.filter hasLive)).terms = (mergeSpec X).terms := by
+    rw [mergeSpec_terms, mergeSpec_terms]
+    have hfun : (fun k => (k, specPostings k (X.filter hasLive))) = fun k => (k, specPostings k X) := by
+      funext k; rw [hsp k]
+    rw [hfun, dropEmpty_map, dropEmpty_map]
+    congr 1
+    have p1 := keyUnion_props ((X.filter hasLive).map fun s : Segment α => s.terms.map Prod.fst)
+    have p2 := keyUnion_props (X.map fun s : Segment α => s.terms.map Prod.fst)
+    apply sorted_ext _ _ (p1.1.sublist List.filter_sublist) (p2.1.sublist List.filter_sublist)
+    intro k
+    simp only [List.mem_filter]
+    constructor
+    · rintro ⟨hk, hp⟩
+      refine ⟨?_, hp⟩
+      obtain ⟨ks, hks, hkin⟩ := (p1.2 k).1 hk
+      obtain ⟨s, hs, rfl⟩ := List.mem_map.1 hks
+      exact (p2.2 k).2 ⟨_, List.mem_map.2 ⟨s, (List.mem_filter.1 hs).1, rfl⟩, hkin⟩
+    · rintro ⟨_, hp⟩
+      refine ⟨?_, hp⟩
+      have hne : specPostings k X ≠ [] := by
+        intro h0; rw [h0] at hp; simp at hp
+      rw [specPostings_cf _ _ hpost] at hne
+      obtain ⟨s, hs, hsne⟩ := cfFrom_ne_nil_source k 0 X hne
+      have hlive : hasLive s = true := by
+        unfold hasLive
+        by_cases h : 0 < s.alive.count true
+        · simp [h]
+        · exact absurd (livePostings_nil_of_no_live _ _ (by omega)) hsne
+      have hkey : k ∈ s.terms.map Prod.fst := by
+        apply key_of_postingsOf_ne_nil
+        intro h0
+        rw [h0] at hsne
+        exact hsne rfl
+      exact (p1.2 k).2 ⟨_, List.mem_map.2 ⟨s, List.mem_filter.2 ⟨hs, hlive⟩, rfl⟩, hkey⟩
+  cases e1 : mergeSpec (X.filter hasLive) with
+  | mk d1 t1 =>
+    cases e2 : mergeSpec X with
+    | mk d2 t2 =>
+      rw [e1, e2] at hdocs hterms
+      simp only at hdocs hterms
+      rw [hdocs, hterms]
+
 end TantivyModel.Merge
